@@ -173,8 +173,13 @@ struct Env {
 }
 
 fn new_env(seed: u64, filtered: bool) -> Env {
+    new_env_rk(seed, filtered, false)
+}
+
+/// `rekeying`: the server has one scripted peer and can be made to take a new id (Fixture::trigger_rekey)
+fn new_env_rk(seed: u64, filtered: bool, rekeying: bool) -> Env {
     let settings = if filtered { Some(ServerSettings { filter: Box::new(Veto), ..Default::default() }) } else { None };
-    let fx = Fixture::new(seed, settings);
+    let fx = if rekeying { Fixture::new_rekeying(seed, settings) } else { Fixture::new(seed, settings) };
     let s2 = fx.second_server(Ipv4Addr::new(45, 12, 0, 2));
     let s2addr = s2.addr;
     let mut cl: Vec<Client> = (0..6).map(|i| fx.client(SocketAddrV4::new(Ipv4Addr::from(IPS[i]), 7001 + i as u16), [0xc0 + i as u8; 20])).collect();
@@ -651,10 +656,24 @@ pub fn run(a: &Args) -> Report {
     // random longer histories, alternating filtered / unfiltered servers
     let n_random = (if a.quick() { 6_400 } else { 24_000 }) / a.nshards.max(1);
     let mut env = new_env(mix(a.seed, 0x77), false);
+    // every other server of this part can be made to re-key; it is, after a random number of histories
+    let mut rekey_after: Option<u64> = None;
     for i in 0..n_random {
         if i % 64 == 63 {
             report_panics(&mut r, env.fx.finish());
-            env = new_env(mix(a.seed, 0x77 + i), i % 128 == 127);
+            let rekeying = (i / 64) % 2 == 0;
+            env = new_env_rk(mix(a.seed, 0x77 + i), i % 128 == 127 || (i / 64) % 4 == 0, rekeying);
+            rekey_after = if rekeying { Some(i + 1 + rng.below(30)) } else { None };
+        }
+        if rekey_after == Some(i) {
+            // the node takes a new id in the middle of its life: stored data, tokens in the clients' hands
+            // and the configured request filter must be what they were
+            if env.fx.trigger_rekey() {
+                r.count("servers_rekeyed_between_histories");
+            } else {
+                r.count("rekey_trigger_without_id_change");
+            }
+            rekey_after = None;
         }
         let len = 8 + rng.usize(23);
         let hist: Vec<Sym> = (0..len).map(|_| *rng.pick(&alpha)).collect();
